@@ -6,6 +6,7 @@ import (
 	"fmt"
 	"go/ast"
 	"go/types"
+	"math"
 	"strings"
 )
 
@@ -110,6 +111,11 @@ func (fx *FuncCtx) libraryModel(st *State, callee *types.Func, qn string, recv V
 		case "Abs":
 			return fx.mathAbs(argT(0)), true
 		case "Floor", "Ceil", "Trunc", "Max", "Min", "Sqrt":
+			if !fx.real && callee.Name() == "Sqrt" {
+				if v, ok := floatLitValue(argT(0)); ok {
+					return fx.floatConst(math.Sqrt(v), SF64), true
+				}
+			}
 			if fx.real {
 				a := argT(0)
 				zero := Term{"0.0", a.Sort}
